@@ -439,7 +439,9 @@ func withKind(r *rand.Rand, k gk) map[string]interface{} {
 }
 
 var deletionChoices = []string{"absent", "empty", "set", "int", "null"}
-var generationChoices = []string{"absent", "gen-only", "observed-only", "equal", "different", "gen-float", "observed-string", "observed-null"}
+var generationChoices = []string{"absent", "gen-only", "observed-only", "equal", "different", "gen-float", "observed-string", "observed-null",
+	// boundary values (seed C07f: a present observed generation of 0 read as "absent")
+	"observed-zero", "gen-zero", "both-zero", "observed-ahead", "big-different", "negative-equal"}
 
 func applyDeletion(obj map[string]interface{}, choice string) {
 	md, _ := obj["metadata"].(map[string]interface{})
@@ -488,6 +490,24 @@ func applyGeneration(obj map[string]interface{}, choice string) {
 	case "observed-null":
 		md["generation"] = int64(2)
 		setPath(obj, "status.observedGeneration", nil)
+	case "observed-zero":
+		md["generation"] = int64(2)
+		setPath(obj, "status.observedGeneration", int64(0))
+	case "gen-zero":
+		md["generation"] = int64(0)
+		setPath(obj, "status.observedGeneration", int64(2))
+	case "both-zero":
+		md["generation"] = int64(0)
+		setPath(obj, "status.observedGeneration", int64(0))
+	case "observed-ahead":
+		md["generation"] = int64(2)
+		setPath(obj, "status.observedGeneration", int64(3))
+	case "big-different":
+		md["generation"] = int64(1<<53 + 1)
+		setPath(obj, "status.observedGeneration", int64(1<<53))
+	case "negative-equal":
+		md["generation"] = int64(-1)
+		setPath(obj, "status.observedGeneration", int64(-1))
 	}
 }
 
@@ -536,7 +556,7 @@ func genGeneric(r *rand.Rand) (map[string]interface{}, string) {
 		k = legacyKinds[r.Intn(len(legacyKinds))]
 	}
 	del := deletionChoices[[]int{0, 0, 0, 1, 2, 3, 4}[r.Intn(7)]]
-	gen := generationChoices[[]int{0, 3, 3, 3, 1, 2, 4, 4, 5, 6, 7}[r.Intn(11)]]
+	gen := generationChoices[[]int{0, 3, 3, 3, 1, 2, 4, 4, 5, 6, 7, 8, 9, 10, 11, 12, 13}[r.Intn(17)]]
 	var std []interface{}
 	for n := r.Intn(4); n > 0; n-- {
 		st := truthValues[r.Intn(3)]
